@@ -34,3 +34,4 @@ def run(prog, rep):
     _rio3.run_memtype(prog, rep)
     from ..rules import r_io as _rio4
     _rio4.run_reclaim(prog, rep)
+    _rio4.run_set_extent(prog, rep)
